@@ -51,7 +51,20 @@ type Conn struct {
 	Chunk    int
 	writeErr error
 	closed   bool
+	// ExpiryFaults adds a third answer to a faulty Write: "the deadline set
+	// for this write has passed" - the write fails with a timeout error, and
+	// so does every later write whose deadline is not later than that one.
+	ExpiryFaults bool
+	wdeadline    time.Time
+	wexpired     time.Time
 }
+
+// timeoutErr is what a net.Conn returns when a deadline has passed.
+type timeoutErr struct{}
+
+func (timeoutErr) Error() string   { return "vconn: i/o timeout" }
+func (timeoutErr) Timeout() bool   { return true }
+func (timeoutErr) Temporary() bool { return true }
 
 // Pipe returns two connected ends. With sync, a Write returns only after
 // the peer has consumed the bytes.
@@ -115,13 +128,27 @@ func (c *Conn) Write(p []byte) (int, error) {
 	faulty := c.FaultyWrites
 	d.mu.Unlock()
 	if faulty {
-		fail = vsched.Choose("conn.Write?"+c.Name, 2, true)
+		n := 2
+		if c.ExpiryFaults {
+			n = 3
+		}
+		fail = vsched.Choose("conn.Write?"+c.Name, n, true)
 	} else {
 		vsched.Yield("conn.Write:"+c.Name, d.id())
 	}
 	d.mu.Lock()
 	if fail == 1 {
 		c.writeErr = ErrInjectedWrite
+	}
+	if fail == 2 {
+		c.wexpired = c.wdeadline
+		if c.wexpired.IsZero() {
+			c.wexpired = time.Unix(1, 0)
+		}
+	}
+	if !c.wexpired.IsZero() && !c.wdeadline.After(c.wexpired) && !(c.closed || d.rclosed) {
+		d.mu.Unlock()
+		return 0, timeoutErr{}
 	}
 	if c.closed || d.rclosed {
 		d.mu.Unlock()
@@ -302,10 +329,15 @@ type addr string
 func (a addr) Network() string { return "vconn" }
 func (a addr) String() string  { return string(a) }
 
-func (c *Conn) LocalAddr() net.Addr                { return addr(c.Name) }
-func (c *Conn) RemoteAddr() net.Addr               { return addr("peer-of-" + c.Name) }
-func (c *Conn) SetDeadline(t time.Time) error      { return nil }
-func (c *Conn) SetReadDeadline(t time.Time) error  { return nil }
-func (c *Conn) SetWriteDeadline(t time.Time) error { return nil }
+func (c *Conn) LocalAddr() net.Addr               { return addr(c.Name) }
+func (c *Conn) RemoteAddr() net.Addr              { return addr("peer-of-" + c.Name) }
+func (c *Conn) SetDeadline(t time.Time) error     { return nil }
+func (c *Conn) SetReadDeadline(t time.Time) error { return nil }
+func (c *Conn) SetWriteDeadline(t time.Time) error {
+	c.w.mu.Lock()
+	c.wdeadline = t
+	c.w.mu.Unlock()
+	return nil
+}
 
 var _ net.Conn = (*Conn)(nil)
